@@ -254,8 +254,11 @@ class Ctx:
         ev["coverage"]["proof_ok"] = self.proof_ok
         ev["coverage"]["tie_ok"] = self.tie_ok
         ev["coverage"]["notes"] = self.notes[-20:]
-        os.makedirs(os.path.join(VERIF, "evidence"), exist_ok=True)
-        with open(os.path.join(VERIF, "evidence", self.prop + ".json"), "w") as f:
+        # evidence/<id>.json describes runs against /repo itself; a run against another tree (PSV_REPO=<scratch>, used to
+        # try seeded changes and repairs) leaves its record under replays/ instead
+        evdir = os.path.join(VERIF, "evidence") if os.path.realpath(REPO) == "/repo" else os.path.join(VERIF, "replays", "evidence-other-tree")
+        os.makedirs(evdir, exist_ok=True)
+        with open(os.path.join(evdir, self.prop + ".json"), "w") as f:
             json.dump(ev, f, indent=1, default=str)
         shutil.rmtree(self.scratch, ignore_errors=True)
         print("[%s] tier=%s seed=%d obligations=%d discharged=%d evaluations=%d violations=%d known=%d wall=%.1fs" % (
